@@ -67,6 +67,17 @@ def readSegment (wire : Bytes) : Option (UInt16 × Bytes × Bytes) :=
       if rest.length < h.payloadLen then none
       else some (h.protocol, rest.take h.payloadLen, rest.drop h.payloadLen)
 
+/-- `payload.chunks(MAX_SEGMENT_PAYLOAD_LENGTH)` of `ChannelBuffer::send_msg_chunks` /
+    `Message::into_chunks` (slice `chunks(n)`: consecutive pieces of `n` bytes, the last one shorter,
+    none for an empty slice); recursion on a fuel that starts at the payload length -/
+def chunksOf (n : Nat) : Nat → Bytes → List Bytes
+  | 0, _ => []
+  | fuel + 1, l => if l.isEmpty then [] else l.take n :: chunksOf n fuel (l.drop n)
+
+/-- `send_msg_chunks` as a list of `enqueue_chunk` calls -/
+def sendMsgChunks (payload : Bytes) : List Bytes :=
+  chunksOf MAX_SEGMENT_PAYLOAD_LENGTH payload.length payload
+
 /-! ## one direction of a connected pair -/
 
 structure Chan where
